@@ -111,7 +111,7 @@ def main():
             trace["run_seed"] = "%016x" % seed
             # one client, no faults, no remote URLs, no closetool in the middle: a plain sequential conversation
             exs = [e for e in trace["clients"][0]["exchanges"] if e["kind"] != "touch" and "raw" not in e
-                   and "peer.invalid" not in (e.get("body") or "")]
+                   and "peer.invalid" not in (e.get("body") or "") and "peer.invalid" not in json.dumps(e.get("args") or {})]
             for e in exs:
                 e["net"] = e["disk"] = None
                 e["reuse"] = False
